@@ -269,10 +269,15 @@ class FsRef:
             if not isinstance(n, dict):
                 return "!NotDirectory"
             return self.lst(n.keys())
-        if op == "dv_push":
+        if op in ("dv_push", "dv_visit", "chdir"):
             d = unhx(t[2])
-            self.saved.append(list(self.cwd))
+            if op == "dv_push":
+                self.saved.append(None)               # a visitor that has not visited anything restores nothing
+            elif op == "dv_visit" and not self.saved:
+                raise Invalid()
             if d:
+                if op != "chdir":
+                    self.saved[-1] = list(self.cwd)   # visit(): remember the directory that is current NOW
                 cur = [] if d.startswith(b"/") else list(self.cwd)
                 for s in d.split(b"/"):
                     if s == b"..":
@@ -283,11 +288,16 @@ class FsRef:
                         cur.append(s)
                 if isinstance(self.find(cur), dict):  # chdir succeeds exactly on directories
                     self.cwd = cur
+            elif op == "dv_visit":
+                raise Invalid()                       # set("") + visit() is not generated
             return self.cwdline()
-        if op == "dv_pop":
+        if op in ("dv_pop", "dv_restore"):
             if not self.saved:
                 raise Invalid()
-            self.cwd = self.saved.pop()               # the property: the previous working directory is back
+            if self.saved[-1] is not None:
+                self.cwd = list(self.saved[-1])       # the property: the working directory from before the visit is back
+            if op == "dv_pop":
+                self.saved.pop()
             return self.cwdline()
         if op == "cwd":
             return self.cwdline()
@@ -398,6 +408,12 @@ def gen_fs_case(rng, tier, big):
         depth += 1
         if rng.chance(1, 6):
             emit("ps cwd")
+        if rng.chance(1, 4):
+            # the same visitor object is used again: restore(), the working directory changes by other means, visit() again
+            emit("ps dv_restore")
+            if rng.chance(2, 3):
+                emit("ps chdir " + hx(b"/" + b"/".join(rng.pick(dirs))))
+            emit("ps dv_visit " + hx(b"/" + b"/".join(rng.pick(dirs))))
     while depth:
         emit("ps dv_pop")
         depth -= 1
@@ -436,6 +452,27 @@ def os_tree(path):
 MODES = {"rt": ("r", False), "r": ("r", True), "wt": ("w", False), "w": ("w", True), "at": ("a", False), "a": ("a", True)}
 
 
+def dealias_line(line, alias):
+    """symbolic links are transparent for File (fopen follows them): `file mklink L T` makes L another name for T.
+    The oracle and the Lean model see the target's name; only the real code sees the link."""
+    t = line.split()
+    if len(t) > 1 and t[0] == "file":
+        if t[1] == "mklink":
+            alias[t[2]] = alias.get(t[3], t[3])
+            return "file root @"                     # a no-op with the answer `ok` on every side
+        if t[1] == "open" and len(t) > 3 and t[3] in alias:
+            t[3] = alias[t[3]]
+        elif t[1] in ("fsize", "cat") and len(t) > 2 and t[2] in alias:
+            t[2] = alias[t[2]]
+        return " ".join(t)
+    return line
+
+
+def dealias_case(case):
+    alias = {}
+    return [dealias_line(l, alias) for l in case]
+
+
 class FileRef:
     """files are byte strings; an open File is (name, kind r|w|a, position)"""
 
@@ -443,8 +480,10 @@ class FileRef:
         self.files = {}
         self.dirs = set()
         self.objs = {}
+        self.alias = {}
 
     def step(self, line):
+        line = dealias_line(line, self.alias)
         t = line.split()
         op = t[1]
         if op == "root":
@@ -549,6 +588,9 @@ class FileRef:
         raise Invalid()
 
     def allowed(self, line):
+        if line.split()[1] == "mklink":
+            return True
+        line = dealias_line(line, dict(self.alias))
         """stdio buffering is not part of the model: a file is looked at from outside, or through a second stream,
         only while no writer has it open (several readers are fine)"""
         t = line.split()
@@ -761,11 +803,15 @@ def gen_errors(rng):
     emit("file mkfile f " + hx(rnd_content(rng, 50)))
     emit("file mkfile g " + hx(rnd_content(rng, 50)))
     emit("file mkdir d")
+    # symbolic links: to a directory, to a regular file, and a dangling one (File must follow them like fopen does)
+    emit("file mklink ld d")
+    emit("file mklink lf f")
+    emit("file mklink lm missing3")
     for _ in range(6 + rng.below(14)):
         obj = rng.pick(["A", "B", "C"])
         k = rng.below(12)
         if k < 5:
-            name = rng.pick(["f", "g", "d", "missing", "missing2", "h"])
+            name = rng.pick(["f", "g", "d", "missing", "missing2", "h", "ld", "lf", "lm", "ld", "lm"])
             mode = rng.pick(["r", "rt", "w", "wt", "a", "at", "none"])
             emit("file open %s %s %s" % (obj, name, mode))
         elif obj in ref.objs:
@@ -790,7 +836,7 @@ def gen_errors(rng):
     for obj in sorted(ref.objs):
         emit("file isopen " + obj)
         emit("file drop " + obj)
-    for name in ("f", "g", "h", "missing"):
+    for name in ("f", "g", "h", "missing", "missing3"):
         emit("file fsize " + name)
         emit("file cat " + name)
     return case
@@ -923,6 +969,8 @@ def run_impl(binary, wd, cases, tag, timeout=None):
 
 
 def run_model(cases, tag):
+    if tag == "file":
+        cases = [dealias_case(c) for c in cases]
     return seqtie.run_stream(None, cases, tag + " reset", is_driver=True, timeout=HARNESS_TIMEOUT)
 
 
